@@ -13,7 +13,7 @@ echo "== checks on /repo with the patch applied"
 cd /repo && git status --short | grep -q . && { echo "/repo dirty"; exit 2; }
 git -C /repo apply $S/patch.diff || { echo "patch does not apply to /repo"; exit 2; }
 cd /verif
-for c in C01 C02 C03 C04 C05 C06 C07 C08 C09 C10 C11 C12 C13 C14 C17 C18 C19 C20; do
+for c in C01 C02 C03 C04 C05 C06 C07 C08 C09 C10 C11 C12 C13 C14 C15 C16 C17 C18 C19 C20; do
   [ -f xsa/rules/$(echo $c | tr A-Z a-z).py ] || continue
   out=$(./check $c --no-evidence 2>&1); rc=$?
   if [ $rc -ne 0 ]; then echo "--- $c rc=$rc"; echo "$out" | grep -E "VIOLATED|ANALYSIS-ERROR" | head -5; fi
